@@ -218,7 +218,8 @@ class SG:
         w.append("(orderby %s asc)" % self.col(tbl, "id"))
         if r.random() < 0.5:
             fr = r.choice(["(frame rows up)", "(frame rows (pre 1) cur)", "(frame rows up uf)", "(frame rows cur (fol 2))",
-                           "(frame rows (pre 2))", "(frame rows (pre 3) (pre 1))", "(frame rows (fol 1) (fol 3))",
+                           "(frame rows (pre 2))", "(frame rows (pre 3) (pre 1))", "(frame rows (pre 2) (pre 1))",
+                           "(frame rows (pre 3) (pre 1))", "(frame rows (fol 1) (fol 3))",
                            "(frame rows (pre 2) (fol 1))", "(frame rows (pre 1) (pre 1))", "(frame rows cur cur)"])
             w.append(fr)
         win = "(window %s)" % " ".join(w)
